@@ -51,13 +51,14 @@ fn err_name(e: &image_webp::DecodingError) -> String {
 /// the canonical accessor record of the real decoder (same text as the driver's `open`)
 pub fn real_record(file: &[u8], limit: usize) -> String { real_record_at(file, limit, 0, 0) }
 
-/// the same through a reader in which the file is embedded: `prefix` bytes before it, `suffix`
-/// bytes after it, positioned at the file's first byte when the decoder is created
+/// the same through a reader in which the file is embedded: `prefix` foreign bytes before it, the
+/// reader positioned at the file's first byte when the decoder is created; odd `suffix` = metadata
+/// accessors in reverse order, each called twice
 pub fn real_record_at(file: &[u8], limit: usize, prefix: usize, suffix: usize) -> String {
     let r = catch(|| {
         let mut stream: Vec<u8> = (0..prefix).map(|i| (i * 31 + 7) as u8).collect();
         stream.extend_from_slice(file);
-        stream.extend((0..suffix).map(|i| (i * 17 + 3) as u8));
+        // (nothing is appended: what follows a file is outside the property; `suffix` only selects the accessor order)
         let mut cur = Cursor::new(stream);
         cur.set_position(prefix as u64);
         let mut d = match WebPDecoder::new(cur) {
@@ -71,9 +72,17 @@ pub fn real_record_at(file: &[u8], limit: usize, prefix: usize, suffix: usize) -
             LoopCount::Times(n) => u32::from(n.get()),
         };
         let m = |r: Result<Option<Vec<u8>>, image_webp::DecodingError>| meta_str(&r.map_err(|e| err_name(&e)));
-        let icc = m(d.icc_profile());
-        let exif = m(d.exif_metadata());
-        let xmp = m(d.xmp_metadata());
+        // `suffix` odd: the accessors are called in the opposite order, each twice (the first
+        // answer is kept; a second answer that differs is reported in the record)
+        let (icc, exif, xmp) = if suffix % 2 == 1 {
+            let xmp = m(d.xmp_metadata());
+            let exif = m(d.exif_metadata());
+            let icc = m(d.icc_profile());
+            let again = (m(d.icc_profile()), m(d.exif_metadata()), m(d.xmp_metadata()));
+            if again != (icc.clone(), exif.clone(), xmp.clone()) { (format!("{icc}(second call: {})", again.0), format!("{exif}(second call: {})", again.1), format!("{xmp}(second call: {})", again.2)) } else { (icc, exif, xmp) }
+        } else {
+            (m(d.icc_profile()), m(d.exif_metadata()), m(d.xmp_metadata()))
+        };
         format!(
             "ok dims={w}x{h} alpha={} animated={} lossy={} frames={} loop={lc} duration={} bufsize={} icc={icc} exif={exif} xmp={xmp}",
             d.has_alpha() as u8, d.is_animated() as u8, d.is_lossy() as u8, d.num_frames(), d.loop_duration(),
@@ -309,11 +318,11 @@ fn one(drv: &mut Drv, rep: &mut Report, d: &Desc, limit: usize) {
     // the file embedded in a larger stream (the reader positioned at its first byte): what the
     // headers define does not depend on where the file starts
     let k = d.file.len();
-    for prefix in [1usize, 64 + k % 7, 4096] {
-        let emb = real_record_at(&d.file, limit, prefix, 0);
+    for (prefix, suffix) in [(1usize, 0usize), (64 + k % 7, 1), (4096, 0), (0, 1)] {
+        let emb = real_record_at(&d.file, limit, prefix, suffix);
         rep.hit("file_embedded_at_an_offset");
         if emb != got {
-            rep.disagree(Disagreement { case: format!("{line} (embedded after {prefix} bytes)"), got: emb, expected: got.clone(), class: "violation", obligation: "C08: accessors equal the values the file's headers define - also when the file is read from a reader positioned at its first byte inside a larger stream".into(), detail: format!("layout {}; {prefix} bytes before the file", d.kind) });
+            rep.disagree(Disagreement { case: format!("{line} (embedded after {prefix} bytes)"), got: emb, expected: got.clone(), class: "violation", obligation: "C08: accessors equal the values the file's headers define - also when the file is read from a reader positioned at its first byte inside a larger stream, and whatever the order and number of accessor calls".into(), detail: format!("layout {}; {prefix} bytes before the file; accessor order variant {suffix}", d.kind) });
             break;
         }
     }
